@@ -146,6 +146,17 @@ class _FinallyFrame(_Frame):
     copies: dict = field(default_factory=dict)
 
 
+def _suppresses(s) -> bool:
+    """`with suppress(...)` / `with contextlib.suppress(...)` (not async)"""
+    if not isinstance(s, ast.With):
+        return False
+    for it in s.items:
+        c = it.context_expr
+        if isinstance(c, ast.Call) and ((isinstance(c.func, ast.Name) and c.func.id == "suppress") or (isinstance(c.func, ast.Attribute) and c.func.attr == "suppress")):
+            return True
+    return False
+
+
 @dataclass
 class _WithFrame(_Frame):
     stmt: ast.AST
@@ -393,10 +404,15 @@ class CFG:
             self._frames.append(fr)
             ends = self._block(s.body, [ent])
             self._frames.pop()
-            if not ends:
+            # `with suppress(E):` - an exception of the body may be swallowed: control then continues behind the statement
+            # (also when the body itself never completes normally, e.g. a `while True` drained by QueueEmpty)
+            swallowed = fr.copies.get(("exc",)) if _suppresses(s) else None
+            if not ends and swallowed is None:
                 return []
             wx = self._new("with_exit", s, text="exit " + head(s))
             self._link(ends, wx)
+            if swallowed is not None:
+                self._edge(swallowed, wx, "catch")
             if isinstance(s, ast.AsyncWith) and not _quiet_exit(s):
                 self._exc_edge(wx)
             return [wx]
